@@ -76,6 +76,8 @@ type c04Scenario struct {
 	KeepAck  bool      `json:"keep_ack"`
 	Steps    []c04Step `json:"steps"`
 	StepMS   int       `json:"step_ms"` // watchdog per waiting point (default 3000)
+	First    string    `json:"first"`   // hex of the first frame of the connection (default: a successful connection event)
+	FirstBeh *c04Frame `json:"first_beh"` // what the handler does if it is offered the first message
 }
 
 type c04HandlerObs struct {
@@ -153,6 +155,7 @@ type c04Obs struct {
 	mu      sync.Mutex
 	recs    []c04Record
 	beh     []c04Frame // behaviour for record i+1 (record 0 is the initial message)
+	first   *c04Frame  // behaviour for record 0
 	done    int        // records completed (handled or unhandled)
 	sent    int
 	changed chan struct{}
@@ -208,6 +211,9 @@ func (h c04Handler) HandleMessage(_ *Client, msg Message) {
 	var b c04Frame
 	if idx >= 1 && idx-1 < len(o.beh) {
 		b = o.beh[idx-1]
+	}
+	if idx == 0 && o.first != nil {
+		b = *o.first
 	}
 	o.mu.Unlock()
 	obs := c04HandlerObs{Who: h.who, Hdr: hdr4(msg.Header), Panic: b.Panic, Err: "nil"}
@@ -384,7 +390,7 @@ func runC04(sc c04Scenario) c04Result {
 		step = time.Duration(sc.StepMS) * time.Millisecond
 	}
 	res := c04Result{Name: sc.Name, ConnectErr: "none"}
-	obs := &c04Obs{changed: make(chan struct{}, 1)}
+	obs := &c04Obs{changed: make(chan struct{}, 1), first: sc.FirstBeh}
 	for _, st := range sc.Steps {
 		if st.Op == "chunk" {
 			obs.beh = append(obs.beh, st.Frames...)
@@ -458,9 +464,25 @@ func runC04(sc c04Scenario) c04Result {
 		}
 	}
 
-	if _, err := peer.Write(peerInitialREN); err != nil {
-		res.Stalled = "initial-write"
-		return res
+	firstFrame := peerInitialREN
+	if sc.First != "" {
+		firstFrame, _ = hex.DecodeString(sc.First)
+	}
+	{
+		// the client may stop reading inside the first frame (oversize claim): do not block on it
+		werr := make(chan error, 1)
+		go func() { _, err := peer.Write(firstFrame); werr <- err }()
+		select {
+		case err := <-werr:
+			if err != nil {
+				res.Stalled = "initial-write"
+				return res
+			}
+		case connectErr = <-connErr:
+			connectReturned = true
+		case <-time.After(step):
+			res.Stalled = "initial-write-blocked"
+		}
 	}
 
 	callers := map[int]*c04Caller{}
